@@ -381,7 +381,70 @@ func uses() []use {
 	}
 	svc := core.NewService()
 	svc.AddFunction(func(a int, s string) string { return s }, "f")
+	homStream := []byte("a3{123}")
+	typed := func(x interface{}, err error) string {
+		if err != nil {
+			return "error"
+		}
+		return eqv.Denote(x).String() + "|" + fmt.Sprintf("%T", x)
+	}
 	return []use{
+		// a homogeneous list into interface{} by users that set no option at all: []interface{} unless an option leaked
+		{"dec-homogeneous-no-options", func(p bool) string {
+			var x interface{}
+			if p {
+				return typed(x, hio.Unmarshal(append([]byte(nil), homStream...), &x)) + func() string { return typed(x, nil) }()
+			}
+			dec := hio.NewDecoder(append([]byte(nil), homStream...))
+			dec.Decode(&x)
+			return typed(x, dec.Error) + typed(x, nil)
+		}},
+		{"dec-homogeneous-from-reader-no-options", func(p bool) string {
+			var x interface{}
+			if p {
+				err := hio.UnmarshalFromReader(bytes.NewReader(homStream), &x)
+				return typed(x, err)
+			}
+			dec := hio.NewDecoderFromReader(bytes.NewReader(homStream))
+			dec.Decode(&x)
+			return typed(x, dec.Error)
+		}},
+		{"dec-homogeneous-reference-mode-no-options", func(p bool) string {
+			var x interface{}
+			if p {
+				err := hio.Formatter{}.Unmarshal(append([]byte(nil), homStream...), &x)
+				return typed(x, err)
+			}
+			dec := hio.NewDecoder(append([]byte(nil), homStream...)).Simple(false)
+			dec.Decode(&x)
+			return typed(x, dec.Error)
+		}},
+		// a pool user that sets every option to its non-default value and gives the decoder back
+		{"dec-pooled-all-options", func(p bool) string {
+			var x interface{}
+			var dec *hio.Decoder
+			if p {
+				dec = hio.GetDecoder().ResetBytes(append([]byte(nil), homStream...))
+				defer hio.FreeDecoder(dec)
+			} else {
+				dec = hio.NewDecoder(append([]byte(nil), homStream...))
+			}
+			dec.Simple(false)
+			dec.LongType, dec.RealType, dec.MapType, dec.StructType, dec.ListType = hio.LongTypeBigInt, hio.RealTypeBigFloat, hio.MapTypeSIMap, hio.StructTypeValue, hio.ListTypeSlice
+			dec.Decode(&x)
+			return typed(x, dec.Error)
+		}},
+		{"dec-mixed-no-options", func(p bool) string {
+			// longs, doubles, a map and a struct: every option shows in the result types
+			data := []byte(`a4{l5;d1.5;m1{1s1"a"}c3"One"1{s1"a"}o0{7}}`)
+			var x interface{}
+			if p {
+				return typed(x, hio.Formatter{}.Unmarshal(append([]byte(nil), data...), &x)) + typeTree(x)
+			}
+			dec := hio.NewDecoder(append([]byte(nil), data...)).Simple(false)
+			dec.Decode(&x)
+			return typed(x, dec.Error) + typeTree(x)
+		}},
 		{"enc-simple", func(p bool) string { return encode(p, true, simpleVal) }},
 		{"enc-ref", func(p bool) string { return encode(p, false, refVal) }},
 		{"enc-error", func(p bool) string { return encode(p, false, []interface{}{shared, make(chan int), shared}) }},
@@ -455,6 +518,23 @@ func uses() []use {
 			return "f" + eqv.Denote([]interface{}{a, s}).String()
 		}},
 	}
+}
+
+// typeTree renders the dynamic types of a decoded value, recursively (decoder options show there).
+func typeTree(x interface{}) string {
+	switch v := x.(type) {
+	case []interface{}:
+		s := "["
+		for _, e := range v {
+			s += typeTree(e) + " "
+		}
+		return s + "]"
+	case map[string]interface{}:
+		return fmt.Sprintf("map[string]{%d}", len(v))
+	case map[interface{}]interface{}:
+		return fmt.Sprintf("map[iface]{%d}", len(v))
+	}
+	return fmt.Sprintf("%T", x)
 }
 
 func phasePool(r *h.Run) {
